@@ -799,6 +799,11 @@ namespace sim
 				m_udp_associate.send_to(vec, m_udp_associate_ep, 0, err);
 				if (err) std::printf("send_to failed: %s\n", err.message().c_str());
 			}
+			else if (!m_udp_from.address().is_v4())
+			{
+				// the header written below can only name an IPv4 source
+				std::printf("dropping datagram from a non-IPv4 source\n");
+			}
 			else
 			{
 				// add UDP ASSOCIATE header and forward to client
